@@ -2,8 +2,18 @@ package file
 
 import (
 	"bytes"
+	"crypto/aes"
+	"crypto/cipher"
+	crand "crypto/rand"
+	"encoding/json"
+	"os"
+	"path/filepath"
+
+	"github.com/libp2p/go-libp2p/core/crypto"
 
 	"github.com/evstack/ev-node/internal/zzsym"
+	"github.com/evstack/ev-node/pkg/signer"
+	"github.com/evstack/ev-node/types"
 )
 
 // ZZ_C19_fallback_total: the legacy key derivation is total and deterministic
@@ -19,4 +29,154 @@ func ZZ_C19_fallback_total() {
 	zzsym.ObserveBytes("key", k)
 	k2 := fallbackDeriveKey(cp, 32)
 	zzsym.Assert(bytes.Equal(k, k2), "derivation-deterministic")
+}
+
+// zzLegacyFile writes a salt-less (legacy format) key file for priv under pp,
+// built independently of saveKeys: key = legacy derivation, AES-GCM seal.
+func zzLegacyFile(dir string, priv crypto.PrivKey, pp []byte) {
+	raw, _ := priv.Raw()
+	pubRaw, _ := priv.GetPublic().Raw()
+	key := make([]byte, 32)
+	copy(key, pp)
+	for i := len(pp); i < 32; i++ {
+		key[i] = pp[i%len(pp)] ^ byte(i)
+	}
+	if len(pp) >= 32 {
+		copy(key, pp[:32])
+	}
+	block, err := aes.NewCipher(key)
+	if err != nil {
+		panic(err)
+	}
+	gcm, err := cipher.NewGCM(block)
+	if err != nil {
+		panic(err)
+	}
+	nonce := zzsym.BytesN("nonce", 12)
+	ct := gcm.Seal(nil, nonce, raw, nil)
+	data, _ := json.Marshal(keyData{PrivKeyEncrypted: ct, Nonce: nonce, PubKeyBytes: pubRaw})
+	_ = os.MkdirAll(dir, 0700)
+	if err := os.WriteFile(filepath.Join(dir, "signer.json"), data, 0600); err != nil {
+		panic(err)
+	}
+}
+
+func zzSignerWorks(s signer.Signer, priv crypto.PrivKey) bool {
+	pub, err := s.GetPublic()
+	if err != nil || pub == nil || !pub.Equals(priv.GetPublic()) {
+		return false
+	}
+	msg := []byte("zz")
+	sig, err := s.Sign(msg)
+	if err != nil {
+		return false
+	}
+	ok, err := pub.Verify(msg, sig)
+	if err != nil || !ok {
+		return false
+	}
+	addr, err := s.GetAddress()
+	return err == nil && bytes.Equal(addr, types.KeyAddress(pub))
+}
+
+// ZZ_C19_save_load: a key saved (ImportPrivateKey = the same sealing code as
+// saveKeys) under passphrase p loads with p' iff p' == p, and then to a
+// working signer for the same key with the address full nodes derive; export
+// returns the key.  Passphrases of 0..3 bytes.
+func ZZ_C19_save_load() {
+	dir := "/zz/keys"
+	priv, _, err := crypto.GenerateEd25519Key(crand.Reader)
+	if err != nil {
+		panic(err)
+	}
+	raw, _ := priv.Raw()
+	p := zzsym.Bytes("pass", 3)
+	p2 := zzsym.Bytes("pass2", 3)
+	same := bytes.Equal(p, p2)
+	zzsym.Assert(ImportPrivateKey(dir, append([]byte(nil), raw...), append([]byte(nil), p...)) == nil, "import-ok")
+	s, err := LoadFileSystemSigner(dir, append([]byte(nil), p2...))
+	if same {
+		zzsym.Reach("right-passphrase")
+		zzsym.Assert(err == nil && s != nil, "loads-with-its-passphrase")
+		if err == nil && s != nil {
+			zzsym.Assert(zzSignerWorks(s, priv), "loaded-signer-works-and-matches")
+		}
+		exp, err := ExportPrivateKey(dir, append([]byte(nil), p2...))
+		zzsym.Assert(err == nil && bytes.Equal(exp, raw), "export-returns-the-key")
+	} else {
+		zzsym.Reach("wrong-passphrase")
+		zzsym.Assert(err != nil, "wrong-passphrase-never-loads")
+		_, err := ExportPrivateKey(dir, append([]byte(nil), p2...))
+		zzsym.Assert(err != nil, "wrong-passphrase-never-exports")
+	}
+}
+
+// ZZ_C19_legacy: files in the legacy salt-less format, passphrases of 1, 31,
+// 32 and 40 bytes (arbitrary contents): the saved passphrase loads to a
+// working signer, a passphrase differing in its first byte does not.
+func ZZ_C19_legacy() {
+	dir := "/zz/legacy"
+	priv, _, err := crypto.GenerateEd25519Key(crand.Reader)
+	if err != nil {
+		panic(err)
+	}
+	n := []int{1, 31, 32, 40}[zzsym.Pick("len", 4)]
+	p := zzsym.BytesN("pass", n)
+	zzLegacyFile(dir, priv, append([]byte(nil), p...))
+	s, err := LoadFileSystemSigner(dir, append([]byte(nil), p...))
+	zzsym.Assert(err == nil && s != nil, "legacy-file-loads-with-its-passphrase")
+	if err == nil && s != nil {
+		zzsym.Assert(zzSignerWorks(s, priv), "legacy-signer-works-and-matches")
+	}
+	bad := append([]byte(nil), p...)
+	bad[0] ^= 0x55
+	_, err = LoadFileSystemSigner(dir, bad)
+	zzsym.Assert(err != nil, "legacy-wrong-passphrase-never-loads")
+	zzsym.Reach("legacy")
+}
+
+// ZZ_C19_corrupt: one field of a valid key file is replaced by other bytes
+// (same length, at least one byte different): loading with the right
+// passphrase never yields a signer whose reported public key does not match
+// its private key, and never panics.
+func ZZ_C19_corrupt() {
+	dir := "/zz/corrupt"
+	priv, _, err := crypto.GenerateEd25519Key(crand.Reader)
+	if err != nil {
+		panic(err)
+	}
+	raw, _ := priv.Raw()
+	p := []byte("pw")
+	zzsym.Assert(ImportPrivateKey(dir, append([]byte(nil), raw...), append([]byte(nil), p...)) == nil, "import-ok")
+	path := filepath.Join(dir, "signer.json")
+	bz, _ := os.ReadFile(path)
+	var kd keyData
+	if json.Unmarshal(bz, &kd) != nil {
+		zzsym.Unsupported("cannot re-read the key file")
+	}
+	field := zzsym.Pick("field", 4)
+	mut := func(b []byte) []byte {
+		c := zzsym.BytesN("garbage", len(b))
+		zzsym.Assume(!bytes.Equal(c, b))
+		return c
+	}
+	switch field {
+	case 0:
+		kd.PubKeyBytes = mut(kd.PubKeyBytes)
+	case 1:
+		kd.Nonce = mut(kd.Nonce)
+	case 2:
+		kd.Salt = mut(kd.Salt)
+	case 3:
+		kd.PubKeyBytes = kd.PubKeyBytes[:len(kd.PubKeyBytes)-1] // truncated
+	}
+	zzsym.Region("clear-text-public-key-corrupted", field == 0)
+	bz2, _ := json.Marshal(kd)
+	_ = os.WriteFile(path, bz2, 0600)
+	s, err := LoadFileSystemSigner(dir, append([]byte(nil), p...))
+	if err == nil && s != nil {
+		zzsym.Assert(zzSignerWorks(s, priv), "corrupted-file-never-yields-a-mismatching-signer")
+	} else {
+		zzsym.Reach("corruption-rejected")
+	}
 }
